@@ -55,6 +55,7 @@ func main() {
 		opts.budgetS = 30
 		opts.twins = true
 		opts.allAgree = true
+		opts.thorough = true
 	}
 	switch cmd {
 	case "synth":
@@ -100,6 +101,9 @@ func (w *world) verifyContract(c *Contract, onlyMode string, opts *runOpts) []*f
 	var out []*fnResult
 	if c.Flags["assumed"] {
 		return nil
+	}
+	if c.Flags["thorough-only"] && (opts == nil || !opts.thorough) {
+		return nil // expensive bounded harnesses run in the thorough tier (and in `verify -tier thorough`)
 	}
 	if c.Kind == "iface" {
 		for _, impl := range w.implementers(c) {
